@@ -250,10 +250,13 @@ func (e *Env) Do(rq Req) *Call {
 	if rq.Ctx != nil {
 		r = r.WithContext(rq.Ctx)
 	}
+	// like a request served by net/http, every request has a context that can be cancelled (Done() is never nil) and
+	// that is cancelled when the handler has returned
+	cctx, cancel := context.WithCancel(r.Context())
+	defer cancel()
+	r = r.WithContext(cctx)
 	if e.Cancellable {
-		cctx, cancel := context.WithCancel(r.Context())
-		defer cancel()
-		r = r.WithContext(context.WithValue(cctx, cancelKey{}, cancel))
+		r = r.WithContext(context.WithValue(cctx, cancelKey{}, context.CancelFunc(cancel)))
 	}
 	r = r.WithContext(sim.WithTag(r.Context(), tag))
 	c := &Call{Tag: tag, Method: rq.Method, Path: rq.Path, Query: rq.Query, Host: rq.Host, Body: rq.Body, Hdr: h, Rec: reply.NewRecorder()}
